@@ -23,6 +23,9 @@ structure SegOK (cur : Nat) (cs : List Chunk) (g : Seg) : Prop where
   /-- `chunk_count` = number of live chunks of this segment -/
   count      : g.count = liveIn cs g.id
   id_le      : g.id ≤ cur
+  /-- `number_of_used_buckets` agrees with `chunk_count`, and with the free list -/
+  used_eq    : g.used = g.count
+  used_free  : g.used + g.pool.free.length = g.nBuckets
 
 structure MInv (segs : List Seg) (cur : Nat) (cs : List Chunk) : Prop where
   ids       : (segs.map (·.id)).Nodup
@@ -68,6 +71,7 @@ theorem minv_alloc {segs : List Seg} {cur : Nat} {cs : List Chunk} (hinv : MInv 
   have hg2p : g2.pool.p = g.pool.p := by subst hg2; rfl
   have hg2free : g2.pool.free = rest := by subst hg2; rfl
   have hg2count : g2.count = g.count + 1 := by subst hg2; rfl
+  have hg2used : g2.used = g.used + 1 := by subst hg2; rfl
   have hg2stride : g2.stride = g.stride := by unfold Seg.stride; rw [hg2p]
   have hg2n : g2.nBuckets = g.nBuckets := by unfold Seg.nBuckets; rw [hg2p]
   have hg2al : g2.balign = g.balign := by unfold Seg.balign; rw [hg2p]
@@ -89,18 +93,23 @@ theorem minv_alloc {segs : List Seg} {cur : Nat} {cs : List Chunk} (hinv : MInv 
     · have hcnt := liveIn_putChunk hinv.labels c0 x.id
       rw [hwold, hwt0, hg2id] at hcnt
       simp only [if_true] at hcnt
-      refine ⟨hg2p ▸ hgok.size_pos, hg2p ▸ hgok.align_pow2, ?_, ?_, ?_, ?_⟩
+      refine ⟨hg2p ▸ hgok.size_pos, hg2p ▸ hgok.align_pow2, ?_, ?_, ?_, ?_, ?_, ?_⟩
       · rw [hg2free]; exact (List.nodup_cons.mp hnd).2
       · intro j hj; rw [hg2n]; rw [hg2free] at hj
         exact hgok.free_lt j (by rw [hfree]; exact List.mem_cons_of_mem _ hj)
       · rw [hg2count, hgok.count, hg2id, hgid]; omega
       · rw [hg2id]; exact Nat.le_refl _
+      · rw [hg2used, hg2count, hgok.used_eq]
+      · have := hgok.used_free
+        rw [hfree] at this
+        rw [hg2used, hg2free, hg2n]; simp only [List.length_cons] at this; omega
     · have hxok := hinv.segs_ok x hxm
       have hcnt := liveIn_putChunk hinv.labels c0 x.id
       rw [hwold, hwt0] at hcnt
       rw [hg2id] at hxid
       simp only [hxid, if_false] at hcnt
-      exact ⟨hxok.size_pos, hxok.align_pow2, hxok.free_nodup, hxok.free_lt, by rw [hxok.count]; omega, hxok.id_le⟩
+      exact ⟨hxok.size_pos, hxok.align_pow2, hxok.free_nodup, hxok.free_lt, by rw [hxok.count]; omega, hxok.id_le,
+        hxok.used_eq, hxok.used_free⟩
   · intro c hc hlive
     rcases mem_putChunk.mp hc with rfl | ⟨hcm, _⟩
     · refine ⟨g2, by rw [hc0s]; exact hgetcur, i, ?_, ?_, ?_, ?_, ?_, ?_⟩
@@ -191,7 +200,7 @@ theorem minv_createResized {s s' : St} (hinv : MInv s.segs s.cur s.chunks) {g : 
       (∀ id, id ≤ s.cur → 0 < liveIn s.chunks id → getSeg s'.segs id = getSeg s.segs id) ∧
       (∀ id g0, getSeg s'.segs id = some g0 → id ≤ s.cur → getSeg s.segs id = some g0) := by
   obtain ⟨g', hmk, _, rfl⟩ := createResized_spec h
-  obtain ⟨hid, hcnt, _, hsz, hal, _, _, _, hfree, _⟩ := mkSeg_ok hmk
+  obtain ⟨hid, hcnt, hused, hsz, hal, _, _, _, hfree, _⟩ := mkSeg_ok hmk
   obtain ⟨hgm, hgid⟩ := getSeg_some hg
   have hgok := hinv.segs_ok g hgm
   simp only
@@ -227,7 +236,7 @@ theorem minv_createResized {s s' : St} (hinv : MInv s.segs s.cur s.chunks) {g : 
     cases hk : getSeg kept id with
     | some x => rfl
     | none => simp only; rw [if_neg]; omega
-  refine ⟨⟨?_, ?_, ?_, hinv.labels, ?_, hinv.distinct⟩, rfl, rfl, rfl, rfl, rfl, ?_, ?_⟩
+  refine ⟨⟨?_, ?_, ?_, hinv.labels, ?_, hinv.distinct⟩, trivial, trivial, trivial, trivial, trivial, ?_, ?_⟩
   · rw [List.map_append, List.nodup_append]
     refine ⟨hknd, by simp, ?_⟩
     intro a ha b hb
@@ -246,10 +255,11 @@ theorem minv_createResized {s s' : St} (hinv : MInv s.segs s.cur s.chunks) {g : 
   · intro x hx
     rcases List.mem_append.mp hx with hx | hx
     · have hxok := hinv.segs_ok x (hkm x hx)
-      exact ⟨hxok.size_pos, hxok.align_pow2, hxok.free_nodup, hxok.free_lt, hxok.count, by have := hxok.id_le; omega⟩
+      exact ⟨hxok.size_pos, hxok.align_pow2, hxok.free_nodup, hxok.free_lt, hxok.count, by have := hxok.id_le; omega,
+        hxok.used_eq, hxok.used_free⟩
     · simp only [List.mem_singleton] at hx
       subst hx
-      refine ⟨hsz, ?_, ?_, ?_, ?_, by omega⟩
+      refine ⟨hsz, ?_, ?_, ?_, ?_, by omega, by rw [hused, hcnt], by rw [hused, hfree]; simp⟩
       · rw [hal]; exact pow2_resizeHint_align hgok.align_pow2 hp
       · rw [hfree]; exact List.nodup_range
       · intro i hi; rw [hfree] at hi; exact List.mem_range.mp hi
@@ -298,9 +308,11 @@ def deallocSegs (segs : List Seg) (cur seg off : Nat) : List Seg :=
 theorem deallocate_segs (s : St) (seg off : Nat) :
     (deallocate s seg off).segs = deallocSegs s.segs s.cur seg off := by
   unfold deallocate deallocSegs
-  split
-  · rfl
-  · split <;> rfl
+  cases h : getSeg s.segs seg with
+  | none => rfl
+  | some g =>
+    simp only
+    split <;> rfl
 
 theorem minv_dealloc {segs : List Seg} {cur : Nat} {cs : List Chunk} (hinv : MInv segs cur cs)
     {c : Chunk} (hc : c ∈ cs) (hl : c.live = true) :
@@ -356,7 +368,8 @@ theorem minv_dealloc {segs : List Seg} {cur : Nat} {cs : List Chunk} (hinv : MIn
       have hxok := hinv.segs_ok x hxm
       have := hcount x.id
       rw [if_neg hxid] at this
-      exact ⟨hxok.size_pos, hxok.align_pow2, hxok.free_nodup, hxok.free_lt, by rw [hxok.count]; omega, hxok.id_le⟩
+      exact ⟨hxok.size_pos, hxok.align_pow2, hxok.free_nodup, hxok.free_lt, by rw [hxok.count]; omega, hxok.id_le,
+        hxok.used_eq, hxok.used_free⟩
     · intro x hx hxl
       obtain ⟨gx, hgx, rest⟩ := hinv.chunks_ok x (hlive_old x hx hxl).1 hxl
       refine ⟨gx, ?_, rest⟩
@@ -368,6 +381,9 @@ theorem minv_dealloc {segs : List Seg} {cur : Nat} {cs : List Chunk} (hinv : MIn
     have hg2free : g2.pool.free = i :: g.pool.free := by
       subst hg2; simp only; rw [hoff]; exact Seg.deallocate_free g hgok.wf i
     have hg2count : g2.count = g.count - 1 := by subst hg2; rfl
+    have hg2used : g2.used = g.used - 1 := by subst hg2; rfl
+    have hcpos : 0 < g.count := by
+      rw [hgok.count, hgid]; exact liveIn_pos_of_mem hc hl
     have hg2stride : g2.stride = g.stride := by unfold Seg.stride; rw [hg2p]
     have hg2n : g2.nBuckets = g.nBuckets := by unfold Seg.nBuckets; rw [hg2p]
     have hg2al : g2.balign = g.balign := by unfold Seg.balign; rw [hg2p]
@@ -385,7 +401,7 @@ theorem minv_dealloc {segs : List Seg} {cur : Nat} {cs : List Chunk} (hinv : MIn
       · have := hcount x.id
         rw [hg2id] at this
         simp only [if_true] at this
-        refine ⟨hg2p ▸ hgok.size_pos, hg2p ▸ hgok.align_pow2, ?_, ?_, ?_, ?_⟩
+        refine ⟨hg2p ▸ hgok.size_pos, hg2p ▸ hgok.align_pow2, ?_, ?_, ?_, ?_, ?_, ?_⟩
         · rw [hg2free]; exact List.nodup_cons.mpr ⟨hi_notin, hgok.free_nodup⟩
         · intro j hj; rw [hg2n]; rw [hg2free] at hj
           rcases List.mem_cons.mp hj with rfl | hj
@@ -393,11 +409,16 @@ theorem minv_dealloc {segs : List Seg} {cur : Nat} {cs : List Chunk} (hinv : MIn
           · exact hgok.free_lt j hj
         · rw [hg2count, hgok.count, hg2id, hgid]; omega
         · rw [hg2id, ← hgid]; exact hgok.id_le
+        · rw [hg2used, hg2count, hgok.used_eq]
+        · have h1 := hgok.used_free
+          have h2 := hgok.used_eq
+          rw [hg2used, hg2free, hg2n]; simp only [List.length_cons]; omega
       · have hxok := hinv.segs_ok x hxm
         have := hcount x.id
         rw [hg2id] at hxid
         rw [if_neg hxid] at this
-        exact ⟨hxok.size_pos, hxok.align_pow2, hxok.free_nodup, hxok.free_lt, by rw [hxok.count]; omega, hxok.id_le⟩
+        exact ⟨hxok.size_pos, hxok.align_pow2, hxok.free_nodup, hxok.free_lt, by rw [hxok.count]; omega, hxok.id_le,
+          hxok.used_eq, hxok.used_free⟩
     · intro x hx hxl
       obtain ⟨hxm, hxne⟩ := hlive_old x hx hxl
       obtain ⟨gx, hgx, j, h1, h2, h3, h4, h5, h6⟩ := hinv.chunks_ok x hxm hxl
@@ -438,7 +459,8 @@ theorem minv_replace {segs : List Seg} {cur : Nat} {cs : List Chunk} (hinv : MIn
   refine ⟨hinv.ids, hinv.cur_in, ?_, putChunk_labels_nodup hinv.labels c', ?_, ?_⟩
   · intro g hg
     have hgok := hinv.segs_ok g hg
-    exact ⟨hgok.size_pos, hgok.align_pow2, hgok.free_nodup, hgok.free_lt, by rw [hcount]; exact hgok.count, hgok.id_le⟩
+    exact ⟨hgok.size_pos, hgok.align_pow2, hgok.free_nodup, hgok.free_lt, by rw [hcount]; exact hgok.count, hgok.id_le,
+      hgok.used_eq, hgok.used_free⟩
   · intro x hx hxl
     rcases mem_putChunk.mp hx with rfl | ⟨hxm, _⟩
     · obtain ⟨g, hg, i, h1, h2, h3, _, _, _⟩ := hinv.chunks_ok c hc hl
